@@ -77,11 +77,23 @@ def run(ctx):
     for l in open(outs[-1][0]):
         if '"op":"ReadFile"' in l and len(ctx.samples) < 3: ctx.samples.append(json.loads(l))
     ctx.tlc_traces("Trace_C14", traces, env={"XRL_FACTS": facts}, heap="4g")
-    ctx.traces = nhist; ctx.evaluations = nev
+    # 4. damaged files: the reader's verdict is free, what may happen to the collection is not (Trace_C14f)
+    nfz = 100 if ctx.quick else 2000
+    fz = run_parts(ctx, exe, [["c14", "fuzz", nfz] for _ in range(NCPU)], "fuzz")
+    nfuzz = 0; fzfiles = []
+    for out, r in fz:
+        if r.returncode != 0: extra.append({"prop": "C14", "why": "harness ended abnormally on damaged files", "rc": r.returncode, "stderr": r.stderr[-1500:]})
+        keep = out + ".fz"
+        with open(keep, "w") as f:
+            for l in open(out):
+                if l.startswith('{"k":"fuzz'): f.write(l); nfuzz += 1
+        fzfiles.append(keep)
+    ctx.tlc_traces("Trace_C14f", fzfiles)
+    ctx.traces = nhist; ctx.evaluations = nev + nfuzz
     ctx.states += 0
     return verdict(ctx, "model_checking", {
         "distinct_nontrivial": nhist,
-        "rule": "model: XrlCrystalArrays explored exhaustively (MC_C14.cfg: 2 user arrays + built-in, 3 names x 2 geometries, files of <= 2 entries with 6 kinds, 2 copy slots, <= 5 operations): invariants Consistent, CopiesIndependent and the action properties; conformance: one program per transition of the MC_C14_emit graph (%d programs) replayed into the real library under ASan/UBSan, plus %d seeded random histories of length <= %d; every recorded step validated by TLC against Outcomes(st, op) (result, listed names sorted, n_crystal, capacity, returned crystals, audits). non-trivial = histories validated." % (nprog, nh, maxlen),
-        "model_states": mc_states, "model_transitions": mc_trans, "programs_from_model_edges": nprog, "random_histories": nh,
+        "rule": "model: XrlCrystalArrays explored exhaustively (MC_C14.cfg: 2 user arrays + built-in, 3 names x 2 geometries, files of <= 2 entries with 6 kinds, 2 copy slots, <= 5 operations): invariants Consistent, CopiesIndependent and the action properties; conformance: one program per transition of the MC_C14_emit graph (%d programs) replayed into the real library under ASan/UBSan, plus %d seeded random histories of length <= %d; every recorded step validated by TLC against Outcomes(st, op); plus damaged crystal files (one to three bytes deleted, duplicated or replaced) read into user arrays and the built-in collection under ASan, judged against Trace_C14f: refused => unchanged, accepted => old members kept, names strictly sorted, count and retrievability intact (result, listed names sorted, n_crystal, capacity, returned crystals, audits). non-trivial = histories validated." % (nprog, nh, maxlen),
+        "damaged_files": nfuzz, "model_states": mc_states, "model_transitions": mc_trans, "programs_from_model_edges": nprog, "random_histories": nh,
     }, ["built-in capacity in replayed programs is set through the public field Crystal_arr.n_alloc (5% of the random histories fill the real 512 slots instead)",
         "generated crystal files use lines < 100 bytes (the reader's line buffer)", "ASan/UBSan/LSan reports end a history with an abort event"], extra_violations=extra)
